@@ -120,8 +120,9 @@ let run_inst (i : 'a inst) (g : config) (progs : op list list) (sched : int list
     if tags <> [] then Printf.fprintf out "%s\ttags\t%s\n" id (String.concat "," tags)
   end
 
-let run (id : string) (ops : string list) (out : out_channel) =
-  if Stdlib.List.exists (fun s -> String.length s > 5 && String.sub s 0 5 = "race:") ops then () else
+let is_race_case (ops : string list) = Stdlib.List.exists (fun s -> String.length s > 5 && String.sub s 0 5 = "race:") ops
+
+let parse (ops : string list) : string * op list list * int list * int =
   let pkg = ref "t" and progs = ref [] and sched = ref [] and expl = ref 0 in
   Stdlib.List.iter (fun s ->
       match split_on ':' s with
@@ -132,15 +133,75 @@ let run (id : string) (ops : string list) (out : out_channel) =
       | ["sched"; v] -> sched := Stdlib.List.map int_of_string (split_on ',' v)
       | ["explore"; v] -> expl := int_of_string v
       | _ -> failwith ("c12 op: " ^ s)) ops;
-  let progs = Stdlib.List.rev !progs in
+  (!pkg, Stdlib.List.rev !progs, !sched, !expl)
+
+let tcp_inst = { cinit = tc_init; cclosed = tc_closed; proc = tcp_process; fl = tcp_flush; unsup = (fun _ -> false) }
+let rsm_inst = { cinit = rc_init; cclosed = rc_closed; proc = rsm_process; fl = rsm_flush; unsup = (fun st -> st.r_unsup) }
+let rsm_cfg (pkg : string) =
   let orig = (try Sys.getenv "C12_RSM_ORIG" = "1" with Not_found -> false) in
-  match !pkg with
-  | "t" ->
-    run_inst { cinit = tc_init; cclosed = tc_closed; proc = tcp_process; fl = tcp_flush; unsup = (fun _ -> false) }
-      cfg_tcp progs !sched !expl id out
-  | "r" | "ro" ->
-    run_inst { cinit = rc_init; cclosed = rc_closed; proc = rsm_process; fl = rsm_flush; unsup = (fun st -> st.r_unsup) }
-      (if orig || !pkg = "ro" then cfg_rsm_orig else cfg_rsm) progs !sched !expl id out
+  if orig || pkg = "ro" then cfg_rsm_orig else cfg_rsm
+
+let run (id : string) (ops : string list) (out : out_channel) =
+  if is_race_case ops then () else
+  let (pkg, progs, sched, expl) = parse ops in
+  match pkg with
+  | "t" -> run_inst tcp_inst cfg_tcp progs sched expl id out
+  | "r" | "ro" -> run_inst rsm_inst (rsm_cfg pkg) progs sched expl id out
   | v -> failwith ("c12 pkg: " ^ v)
 
 let registered = Registry.register "C12" run
+
+(* ---- extraction cross-check inside Coq (see c18.ml).  The final state is large and polymorphic in the
+   connection state, so the Example states what this glue READS from it: with
+     let '(s, raced) := run_tcp|run_rsm cfg 3000 progs sched
+   the tuple (rev (s_log s), s_tags s, raced, s_conns s, s_free s, map c_stream (s_objs s),
+   (all_done, any_enabled, unsupported), the six chk_* verdicts), computed here with the extracted code,
+   must equal the same projections evaluated by vm_compute. *)
+let coq_key (k : key) = Printf.sprintf "(mkKey %s %s)" (coq_nat k.k_flow) (coq_bool k.k_dir)
+let coq_pkt (p : packet) =
+  Printf.sprintf "(mkPkt %s %s %s %s %s)" (coq_key p.p_key) (coq_bool p.p_syn) (coq_bool p.p_fin) (coq_z p.p_seq) (coq_zlist p.p_bytes)
+let coq_op = function OPkt p -> "OPkt " ^ coq_pkt p | OFlush -> "OFlush"
+let coq_chunk (c : chunk) =
+  Printf.sprintf "mkChunk %s %s %s %s" (coq_zlist c.ch_bytes) (coq_z c.ch_skip) (coq_bool c.ch_start) (coq_bool c.ch_end)
+let coq_cevent = function
+  | CReasm (d, chs) -> Printf.sprintf "(CReasm %s %s)" (coq_bool d) (coq_list coq_chunk chs)
+  | CComplete -> "CComplete"
+let coq_event (e : event) = match e with
+  | ENew (t, k, sid) -> Printf.sprintf "ENew %s %s %s" (coq_nat t) (coq_key k) (coq_nat sid)
+  | ECall (t, sid, c, ce) -> Printf.sprintf "ECall %s %s %s %s" (coq_nat t) (coq_nat sid) (coq_nat c) (coq_cevent ce)
+  | EProc (t, p, c, ck, sid) -> Printf.sprintf "EProc %s %s %s %s %s" (coq_nat t) (coq_pkt p) (coq_nat c) (coq_key ck) (coq_nat sid)
+  | EPanic t -> "EPanic " ^ coq_nat t
+let coq_tag = function
+  | TgRaceLost -> "TgRaceLost" | TgBothDir -> "TgBothDir" | TgCloseLL -> "TgCloseLL" | TgRecycle -> "TgRecycle"
+  | TgStale -> "TgStale" | TgRetry -> "TgRetry" | TgFlushStale -> "TgFlushStale"
+let coq_cfg (g : config) =
+  Printf.sprintf "(mkCfg %s %s %s)" (match g.g_pkg with Tcp -> "Tcp" | Rsm -> "Rsm") (coq_bool g.g_fixme) (coq_bool g.g_recycle)
+
+let to_coq_inst (i : 'a inst) (runname : string) (cinitname : string) (unsupterm : string) (g : config)
+    (progs : op list list) (sched : int list) (idx : int) (out : out_channel) =
+  let fuel = nat_of_int 3000 in
+  let (s, raced) = run_case i.cinit i.cclosed i.proc i.fl g fuel progs (Stdlib.List.map nat_of_int sched) in
+  let gs = coq_cfg g in
+  let lhs = Printf.sprintf
+    "(let '(s, raced) := %s %s %s\n      %s\n      %s in\n   (rev (s_log s), s_tags s, raced, s_conns s, s_free s, map (fun o => c_stream o) (s_objs s),\n    (all_done s, any_enabled _ %s s, %s),\n    (chk_one_entry _ %s %s s, chk_no_panic s, chk_progress _ %s s, chk_right_stream %s s, chk_complete_most_once s, chk_complete_once_final s)))"
+    runname gs (coq_nat fuel) (coq_list (coq_list coq_op) progs) (coq_list coq_nat (Stdlib.List.map nat_of_int sched))
+    cinitname unsupterm cinitname gs cinitname gs in
+  let rhs = Printf.sprintf "(%s,\n     %s, %s, %s, %s, %s,\n     (%s, %s, %s),\n     (%s, %s, %s, %s, %s, %s))"
+    (coq_list coq_event (Stdlib.List.rev s.s_log)) (coq_list coq_tag s.s_tags) (coq_bool raced)
+    (coq_list (coq_pair coq_key coq_nat) s.s_conns) (coq_list coq_nat s.s_free)
+    (coq_list (fun o -> coq_nat o.c_stream) s.s_objs)
+    (coq_bool (all_done s)) (coq_bool (any_enabled i.cinit s)) (coq_bool (Stdlib.List.exists (fun o -> i.unsup o.c_st) s.s_objs))
+    (coq_bool (chk_one_entry i.cinit g s)) (coq_bool (chk_no_panic s)) (coq_bool (chk_progress i.cinit s))
+    (coq_bool (chk_right_stream g s)) (coq_bool (chk_complete_most_once s)) (coq_bool (chk_complete_once_final s)) in
+  coq_example out idx lhs rhs
+
+let to_coq (idx : int) (ops : string list) (out : out_channel) =
+  if is_race_case ops then () else
+  let (pkg, progs, sched, expl) = parse ops in
+  let nbytes = Stdlib.List.fold_left (fun a pr -> Stdlib.List.fold_left (fun a o -> match o with OPkt p -> a + Stdlib.List.length p.p_bytes | _ -> a) a pr) 0 progs in
+  if expl = 0 && nbytes <= 400 then
+    match pkg with
+    | "t" -> to_coq_inst tcp_inst "run_tcp" "tc_init" "false" cfg_tcp progs sched idx out
+    | "r" | "ro" -> to_coq_inst rsm_inst "run_rsm" "rc_init" "existsb (fun o => r_unsup (c_st o)) (s_objs s)" (rsm_cfg pkg) progs sched idx out
+    | _ -> ()
+let registered_coq = Registry.register_coq "C12" ("From GP Require Import Base C12Model.\n", to_coq)
